@@ -16,7 +16,6 @@ import (
 
 	"github.com/glowlabs-org/gca-backend/glow"
 
-	"verifh/ev"
 	"verifh/pool"
 )
 
@@ -245,7 +244,7 @@ func init() {
 		return c08Run(j), nil
 	})
 	checks["C08"] = func(tier string) int {
-		run := ev.NewRun("C08", tier, "fault_enumeration")
+		run := newRun("C08", tier, "fault_enumeration")
 		readings := []string{"", "5000", "-3000", "10"}
 		slots := 3
 		if tier == "thorough" {
